@@ -240,6 +240,9 @@ def lemma_vcs():
             out.append(VC(f'lemma/guard_rank{rank}_sizeof{S}: dims that pass the division guard have an exact product <= max_size, every running product fits',
                           ds + '\n' + rng + '\n' + guards + f'\n(assert (not (and {concl})))', group='lemma',
                           about='discharges the arithmetic assumption of nv_tensor_resize (uninterpreted * and / in CBMC)'))
+        out.append(VC(f'lemma/zero_dim_rank{rank}: non-negative dimensions one of which is 0 multiply to 0 (the fact nv_tensor_resize assumes for empty shapes)',
+                      ds + '\n' + ''.join(f'(assert (>= d{k} 0))' for k in range(rank)) + '(assert (or ' + ' '.join(f'(= d{k} 0)' for k in range(rank)) + ' false))'
+                      + f'\n(assert (not (= {right} 0)))', group='lemma', about='discharges the zero-dimension assumption of nv_tensor_resize'))
         out.append(VC(f'lemma/guard_rank{rank}: vacuity guard (some dims pass the guard)', ds + '\n' + rng + '\n' + guards + '\n(assert (> d0 1))', group='lemma',
                       expect='sat', about='vacuity guard (must be sat)'))
     return out
@@ -253,7 +256,7 @@ def build(tier):
         Target('read_u32', [read_u32()], P),
         Target('read_u64', [read_u64()], P),
         Target('read_cast_i32_i64', [read_cast1(), read_i32()], P),
-        Target('read_cast_n', [read_castn(), read_cast1(), read_i32()], P, timeout=240),   # the hardest SAT instance (20 s alone): survives a loaded machine
+        Target('read_cast_n', [read_castn(), read_cast1(), read_i32()], P, timeout=300),   # the hardest SAT instance (20 s alone): survives a loaded machine
         Target('read_ptr_f64', [rd_ptr('read_ptr_f64', 'double')], P),
     ]
     NOCONV = ['--bounds-check', '--pointer-check', '--div-by-zero-check', '--signed-overflow-check', '--pointer-overflow-check']
@@ -292,7 +295,7 @@ def build(tier):
     for tag, scalar, rank in INST:
         pre = f'{D}tensor_{tag}_{rank}.h'
         deps = lambda: [read_u32(), read_u64(), read_castn(), read_cast1(), read_i32(), rd_ptr('read_ptr_' + tag, scalar), hash_version()]
-        targets.append(Target(f'tensor_read_{tag}_{rank}', [tensor_read('tensor_read', scalar, rank)] + deps(), pre, loops=0, unwind=NV_UNWIND, cbmc_flags=CADICAL, timeout=240))
+        targets.append(Target(f'tensor_read_{tag}_{rank}', [tensor_read('tensor_read', scalar, rank)] + deps(), pre, loops=0, unwind=NV_UNWIND, cbmc_flags=CADICAL, timeout=300))
         wdeps = [write_u32(), write_u64(), write_i32(), write_castn(), wr_ptr('write_ptr_' + tag, scalar), hash_version()]
         targets.append(Target(f'tensor_write_{tag}_{rank}', [tensor_write('tensor_write', scalar, rank)] + wdeps, pre, loops=0, unwind=NV_UNWIND, cbmc_flags=CADICAL))
         if rank <= 2:   # the obligations that pin the repair of the dims validation (they failed before 81b3596); rank 4 is covered by the main target
@@ -303,8 +306,13 @@ def build(tier):
     # reader / writer symmetry of every serialisable class (field sequences derived from the ASTs of both bodies)
     sym_targets, sym_summary = symmetry.targets()
     targets += sym_targets
+    import paramrw
+    targets += paramrw.targets(tier)
+    # the tensor reader once more, on back end B (integers with their own * and div): the dims guard in both directions
+    import guard
+    guard_vcs, guard_fns = guard.build(tier)
     return {
-        'targets': targets, 'vcs': lemma_vcs(),
+        'targets': targets, 'vcs': lemma_vcs() + guard_vcs, 'functions': guard_fns,
         'decided': [
             'tensor reader (double rank 1/2/4, int64 rank 1; NO assumption on the header dims since the repair 81b3596): the reader itself rejects a negative dimension and an overflowing '
             'element / byte count without touching the tensor (resize is reached at most once and only with validated dims); never reports good a stream that had failed or is short; accepted => version, rank, sizeof(scalar) '
@@ -325,6 +333,26 @@ def build(tier):
             'in reader and writer (value(s), min, max, minLE, maxLE[, valueLE]); write(string_view): uint32 length + chars',
             'tensor writer (repair c547eaf): a dimension above INT32_MAX => failbit and nothing written; dims that fit are never refused by that guard; no precondition on the magnitude of dims',
             'lemma (SMT): dims that pass the reader\'s division guard have an exact product <= max_size and every running product fits int64 (ranks 1-4, sizeof 8 and 1)',
+            'tensor reader on back end B (specs/C15/guard.py; SMT over Int, the real body of nano::read(istream&, tensor_t&) for double rank 2/3 and int8 rank 1, thorough: + double rank 1/4, int64 rank 1, int8 rank 3; '
+            'both dims loops executed exactly (constant bound trank; the early exit `&& !empty` of the overflow guard is followed path by path), products and quotients are the integers\' own): SOUNDNESS accepted => version / rank / sizeof(scalar) are the writer\'s, every dim >= 0, '
+            'sizeof * prod(dims) fits int64, exactly header + sizeof * prod(dims) bytes consumed (all supplied), stored hash == hash(payload slice); ROUND TRIP accepted => dims[k] of the tensor is the dim of '
+            'the stream and size() is their product FOR EVERY PRIOR CONTENT of the destination (any dims / size / block, also a moved-from object); COMPLETENESS (NON-EMPTY and EMPTY tensors, separate obligations) a valid header passes the guard '
+            '(payload read attempted once, at the end of the header, with count == prod(dims)) and a valid complete stream with a matching hash is ACCEPTED -- a stricter guard (> -> >=) fails these; '
+            'DEFINEDNESS every division by a header-derived value has a non-zero divisor, `total *= dims[i]` never overflows, no value-changing conversion; resize is reached at most once and only with validated '
+            'dims, a rejected header leaves the tensor untouched; istream::read gets a non-negative count and a block of that many scalars',
+            'parameter_t::read / write (src/parameter.cpp; specs/C15/paramrw.py, param_rw.h; variant storage as {index, a1..a6}, std::visit / switch extracted arm by arm): '
+            'parameter_roundtrip_alt<k> (one target per alternative written; quick tier: empty, enum, scalar pair range; thorough: all seven) = the property itself on both real bodies inlined down to istream::read / ostream::write: for EVERY well-formed parameter p (any alternative) and EVERY prior content of the '
+            'destination q, write(p) then read(q) yields q == p -- same alternative (an empty parameter resets a used object), name, every member of the active record (doubles by bit pattern), enum value and domain, '
+            'string value -- consumes exactly the bytes and as many fields as were written, and does not throw unless an allocation fails; '
+            'parameter_read (any stream, any destination): failed stream => exception, normal return => stream good, unknown tag => exception, normal return => -1 <= tag <= 5 and the ACTIVE ALTERNATIVE IS THE ONE OF THE TAG '
+            '(index == tag + 1) whatever the destination held before, the name is the stored one; '
+            'parameter_write (contract enforced): old failure => exception, normal return => good; tag == index - 1, name (length, chars), then per alternative exactly the fields of the shared layout table '
+            '(NV_REC_OFF / NV_REC_W / NV_PAR_NFIELDS: offsets, widths, count) with the members as values in wire order; enum: value string then domain vector; string: value string',
+            'double-valued range helpers ::read / ::write (range_t<double>, pair_range_t<double>) and read(double&) / write(double): same contracts as the int64 ones, values compared by bit pattern '
+            '(targets read_f64, write_f64, param_read_frange, param_read_fprange, param_write_frange, param_write_fprange): short / failed stream => exception, members <-> wire fields in the layout table\'s order',
+            'repair of FINDING_empty_tensor_rejected.md (known_findings.txt `fixed:`): the COMPLETENESS (EMPTY tensor) obligations are PROVED on the repaired reader (an empty shape skips the overflow guard) and '
+            'REFUTED on the reader before the repair (tensor_reader_smt_f64_3, natively replayed by replay/C15_empty_tensor_demo.cpp): they are the regression test of the repair; '
+            'lemma (SMT): non-negative dimensions one of which is 0 multiply to 0 (ranks 1-4)',
             'tensor_read_dims_* and tensor_write_dims_i8_1 pin the two repaired defects: on the pre-fix library (72b52bf) they fail and replay natively (negative count handed to istream::read; '
             'header dim -2^31 for a 2^31-element tensor)',
         ],
@@ -332,12 +360,16 @@ def build(tier):
             'bit-identical predictions of re-read models (object graphs: learners, gboost, wlearners)',
             'detection of altered payload bytes is only as strong as the 64-bit hash: proved is that the comparison is made on exactly the payload, not that collisions are impossible',
             'header corruption is not covered by the hash at all (a corrupted dim of an empty tensor is accepted: format property, shown natively in the replay)',
-            'that every VALID header is accepted by the guard (the quotient max_size / dim is uninterpreted in CBMC): a stricter guard (> -> >=) is not noticed',
-            'residual after the repair: nano::size multiplies right-to-left while the guard runs left-to-right; header dims (0, 2^31-1, 2^31-1, 2^31-1) pass the guard and the inner product '
+            'residual after the repairs: nano::size multiplies right-to-left; an EMPTY shape is accepted whatever its other dims are (that is the repair of the empty-tensor rejection), so header dims (0, 2^31-1, 2^31-1, 2^31-1) and the inner product '
             'overflows int64 inside detail::product (undefined behaviour by the letter, UBSan reports it; the result is multiplied by 0, size() = 0) -- recorded as an assumption, not an obligation',
             'symmetry says nothing about a member that BOTH bodies forget, nor about the values transferred (only which field goes through which overload in which order)',
-            'parameter_t::read / write themselves (variant storage, switch over the type tag: no fixed field sequence, the symmetry walker refuses branches), double-valued ranges, read(unique_ptr<T>) (factory lookup), '
-            'write(vector<T>) (std::any_of + lambda), read(vector<string>), feature / learner / model readers (per-field critical(!read...) pattern only)',
+            'parameter_t::read against an ARBITRARY stream, per arm (every member == the field at its wire offset; exactly the tag\'s layout consumed, hence a truncated record throws at this level; completeness): '
+            'written as assertions (git history of specs/C15/paramrw.py) but CBMC did not finish in 300 s, so they are NOT claimed; what stands in: the round trip on written streams, the range helpers\' own '
+            'contracts (short => exception, members == fields) and the protocol clauses of parameter_read.  The AST-level symmetry walker still refuses branches (parameter_t is covered by the targets above instead)',
+            'read() stores the record from the stream WITHOUT the domain check: a corrupted but complete stream yields any record -- min > max, value outside [min, max], value1 > value2, NaN / inf bounds and values, '
+            'an enum value that is not in its domain, an empty domain -- i.e. parameter_t objects that no constructor or assignment would accept (proved shape: members == stored fields; nothing more is checked by the code)',
+            'read(unique_ptr<T>) (factory lookup), write(vector<T>) (std::any_of + lambda), read(vector<string>): here ASSUMED contracts (stubs nv_read_pstrs / nv_write_pstrs); feature / learner / model readers: '
+            'per-field critical(!read...) pattern and symmetry only; completeness of the member lists against the class definitions (task d) not done',
         ],
         'assumptions': [
             'std::istream::read(dst, n): failed stream extracts nothing; if len-pos >= n stores the n bytes at pos and advances, else sets fail and never reads at or beyond len (stub nv_istream_read)',
@@ -345,7 +377,7 @@ def build(tier):
             'stream content is an arbitrary fixed function offset -> value (1/4/8-byte views unrelated); payload blocks are represented by a ghost content identity, their memory is not modelled',
             'detail::hash(data, n) is a deterministic function of the content of data[0,n) (uninterpreted), 0 for n <= 0 (that clause is proved on the real hash)',
             'tensor resize(dims): size() becomes nano::size(dims) (uninterpreted for rank >= 2; the exact product, >= 0, when all dims >= 0 and the product fits int64 -- also if an intermediate '
-            'product of its right-to-left evaluation wraps), throws bad_alloc above 2^47 bytes or at will, negative size leaves a null block (release build), success gives a fresh block of size() scalars',
+            'product of its right-to-left evaluation wraps; 0 when all dims >= 0 and one of them is 0: SMT lemma zero_dim_rank*), throws bad_alloc above 2^47 bytes or at will, negative size leaves a null block (release build), success gives a fresh block of size() scalars',
             'int64 * and / (non-constant divisor) of the reader are uninterpreted in CBMC (nv_imul / nv_idiv, with x*1, x*0 exact and the divisor asserted non-zero); the one arithmetic fact used '
             '(guard passed => exact bounded product) is assumed in nv_tensor_resize on the guard loop\'s own terms and proved by the SMT VCs lemma/guard_rank*',
             'tensor writer precondition: the tensor is a live object (dims >= 0, size() scalars at data())',
@@ -359,6 +391,15 @@ def build(tier):
             'nano::write(stream, string_view) inside the parameter writers: two fields (length, chars) or failure (stub nv_write_name; the real function is verified in target write_string)',
             'write(string_view) precondition: the length fits the uint32 it is stored in',
             'x86-64 little endian; int = 32, long = 64 bits (type_facts.cpp)',
+            'back end B reader (guard.py): callees replaced by the contracts PROVED for them by the CBMC targets (read_u32 / read_u64 / read_cast_n / read_ptr_*: accepted <=> good and enough bytes, value = stored value, '
+            'position advances by exactly the width; the payload read contract is used for counts up to 2^47 / sizeof, CBMC proves it for counts <= 2^40: size bound); tensor resize / size / data as in tensor.h with '
+            'nano::size(dims) = the mathematical product (C16 proves nano::size; right-to-left wrap of intermediate products as above); std::bad_alloc leaves the function (no claim about the tensor then); '
+            'detail::hash_version() is executed in place; sizeof(T) from the x86-64 table',
+            'parameter targets: std::string = (content identity, length), std::vector<std::string> = (content identity, serialised size in [8, 2^46 + 8)); nano::read / nano::write of a string / string vector are stubs '
+            '(nv_read_pstr / nv_read_pstrs / nv_write_pstr / nv_write_pstrs): failed stream does nothing, short => fail, resize may throw, accepted => stored value and exact byte count; '
+            'parameter_roundtrip: the bytes appended by ostream::write DEFINE the content istream::read sees at the same offsets (std::stringstream; assume sites in nv_ostream_write / nv_write_pstr* under NV_ROUNDTRIP, '
+            'guarded by the harness canary); string lengths fit uint32; LEorLT flags are 0 / 1 (a two-alternative variant is never valueless); an exception thrown by a stub lets execution continue with nv_thrown set '
+            '(over-approximation: every later obligation is still checked, postconditions are guarded by nv_thrown)',
             'size bounds that keep position arithmetic inside int64: stream length <= 2^46 bytes, element counts <= 2^40, allocations above 2^47 bytes throw',
         ],
         'trusted': [],
@@ -377,6 +418,13 @@ def replay(rp):
         exe = replaylib.build_header_only('replay/C15_replay.cpp', 'C15_replay')
         rc, so, se = replaylib.run_driver(exe, [simple[rp['target']]])
         out['runs'].append({'scenario': simple[rp['target']], 'exit': rc, 'output': so.strip()})
+        out['reproduced'] = rc == 1
+        return out
+    if rp.get('target', '').startswith('tensor_reader_smt') and any('EMPTY tensor' in fo['id'] for fo in rp['failed_obligations']):
+        # FINDING_empty_tensor_rejected.md: write -> read of empty tensors with large leading dimensions on the real headers
+        exe = replaylib.build_header_only('replay/C15_empty_tensor_demo.cpp', 'C15_empty_tensor_demo')
+        rc, so, se = replaylib.run_driver(exe, [])
+        out['runs'].append({'scenario': 'write -> read of empty tensors (1073741825 x 1073741825 x 0 doubles, ...)', 'exit': rc, 'output': so.strip()})
         out['reproduced'] = rc == 1
         return out
     if rp.get('target', '').startswith('sym_'):
